@@ -492,9 +492,12 @@ def r3_setops(ctx):
                 elif got in (('eps',), ('empty',), ('sigma*',)):
                     quants = [f for f in st.pc if (f[0] == 'quant' or (f[0] == 'not' and f[1][0] == 'quant'))]
                     if name == 'make_inter' and quants:
-                        pos = quants[-1][0] == 'quant'
-                        q = quants[-1] if pos else quants[-1][1]
-                        okq = q[1] == 'all' and q[4][0] == 'fld' and q[4][2] == 'nullable'
+                        # "every operand is nullable", or its complement "some operand is not", however the scan is written
+                        from ..loopsum import qnorm
+                        qn = qnorm(quants[-1])
+                        isnu = lambda b: b[0] == 'fld' and b[2] == 'nullable'
+                        pos = qn[0] == 'all'
+                        okq = (isnu(qn[3]) if pos else (qn[3][0] == 'not' and isnu(qn[3][1])))
                         ok = okq and ((got == ('eps',)) == pos) and got != ('sigma*',)
                         role = 'contains-epsilon:%s' % ('all-nullable-gives-eps' if pos else 'otherwise-empty')
                     else:
